@@ -55,14 +55,15 @@ Section Validate.
 Variable gm : bytes -> bytes -> bool.
 Variable fixed_P17 : bool.
 Variable fixed_P35 : bool.
+Variable fixed_P37 : bool.
 
 Definition step1 (c : config) (th k : nat) : config + tv_error :=
-  match par_step gm fixed_P17 fixed_P35 c th k with Some c' => inl c' | None => inr StepRefused end.
+  match par_step gm fixed_P17 fixed_P35 fixed_P37 c th k with Some c' => inl c' | None => inr StepRefused end.
 
 (* the return of a thread to the top of its loop is not an event: taken as soon as it is enabled *)
 Definition settle (c : config) (th : nat) : config :=
   match nth_error (c_threads c) th with
-  | Some (Work [] []) => match par_step gm fixed_P17 fixed_P35 c th O with Some c' => c' | None => c end
+  | Some (Work [] []) => match par_step gm fixed_P17 fixed_P35 fixed_P37 c th O with Some c' => c' | None => c end
   | _ => c
   end.
 
@@ -93,9 +94,9 @@ Definition tv_event (c : config) (e : event) : config + tv_error :=
     end
   | ECheck th q v =>
     match nth_error (c_threads c) th with
-    | Some (Work ((q', _) :: _) _) =>
+    | Some (Work ((q', t') :: _) _) =>
       if path_eqb q q' then
-        let mv := check gm fixed_P17 fixed_P35 (c_rules c) q in
+        let mv := check gm fixed_P17 fixed_P35 fixed_P37 (c_rules c) q (is_dir t') in
         if verdict_eqb v mv then
           match step1 c th O with inl c1 => inl (settle c1 th) | inr e => inr e end
         else inr (WrongVerdict mv)
@@ -152,5 +153,5 @@ Definition tv_validate (nthreads : nat) (globals : bytes) ign ch (evs : list eve
 (* a generated schedule prefix, then round robin *)
 Definition par_walk_drained (nthreads : nat) (globals : bytes) ign ch (sched : list (nat * nat)) (rounds : nat)
   : config :=
-  par_run gm fixed_P17 fixed_P35 (par_walk gm fixed_P17 fixed_P35 nthreads globals ign ch sched) (rr_sched nthreads rounds).
+  par_run gm fixed_P17 fixed_P35 fixed_P37 (par_walk gm fixed_P17 fixed_P35 fixed_P37 nthreads globals ign ch sched) (rr_sched nthreads rounds).
 End Validate.
